@@ -9,7 +9,7 @@
 -/
 import YkProofs.Core
 namespace Yk.C03
-open Yk Yk.Core
+open Yk Yk.Core Yk.Res
 
 /-- The books agree (I1–I5 of CoreState, pointwise form): an application's totals are the sums over its allocations and
     unallocated asks, every queue's allocated/pending is the sum over the live applications at or below it (so a leaf is
@@ -43,8 +43,11 @@ theorem drained_is_zero (s : Core) (hb : Books s) (ha : s.liveApps = [])
   books_drained s hb ha hn
 
 /-- The executable clauses the driver evaluates on the implementation's dumped state imply the books (for well-formed
-    dumps): `Core.conserved s = none ∧ Core.nodeLedger s = none → Books s`. -/
-theorem conserved_exec_sound (s : Core) (hw : CoreWF s) (h1 : s.conserved = none) (h2 : s.nodeLedger = none) : Books s :=
-  books_of_exec s hw h1 h2
+    dumps): `Core.conserved s = none ∧ Core.nodeLedger s = none → Books s`.  `QueueTreeWF` (YkProofs/Core.lean) states
+    the shape of the queue hierarchy that turns "leaf = Σ its applications, parent = Σ its children" (I4, I5) into
+    "every queue = Σ the applications at or below it". -/
+theorem conserved_exec_sound (s : Core) (hw : CoreWF s) (ht : QueueTreeWF s) (h1 : s.conserved = none) (h2 : s.nodeLedger = none) :
+    Books s :=
+  books_of_exec s hw ht h1 h2
 
 end Yk.C03
